@@ -78,6 +78,7 @@ PROPS["C03"] = {
         {"spec": "QueryRun.tla", "cfg": "QueryRun_quick.cfg"},
         {"spec": "QueryRun.tla", "cfg": "QueryRun_alpha3.cfg"},
         {"spec": "QueryRun.tla", "cfg": "QueryRun_thorough.cfg", "tier": "thorough"},
+        {"spec": "QueryRun.tla", "cfg": "QueryRun_thorough4.cfg", "tier": "thorough"},
         {"spec": "QueryRun.tla", "cfg": "QueryRun_neg_cap.cfg", "expect": "violation"},
         {"spec": "QueryRun.tla", "cfg": "QueryRun_neg_cap_hangs.cfg", "expect": "violation"},
         {"spec": "QueryRun.tla", "cfg": "QueryRun_neg_spawn.cfg", "expect": "violation"},
